@@ -217,6 +217,32 @@ def run_group(repo, unit, g, variant_defs=(), tag=''):
         if bad in so + se:
             res['detail'] = 'goto-instrument: ' + bad
             return res
+    # 2d. syntactic side condition (C09): the function's body touches the counter field only as the
+    #     address argument of a uatomic_* call (a sequentially checked contract cannot see a split RMW
+    #     made of plain accesses)
+    scan_fail = None
+    if g.get('scan_atomic'):
+        sc = g['scan_atomic']
+        rc, so3, se, dt = sh(['goto-instrument', '--show-goto-functions', 'a1.gb'], 300, cwd=wd)
+        body = []; on = False
+        for line in so3.splitlines():
+            m = re.match(r'^([\w$]+) /\* ', line)
+            if m:
+                on = (m.group(1) == sc['function']); continue
+            if on:
+                body.append(line)
+        if not body:
+            res['detail'] = 'scan_atomic: function %s not found' % sc['function']
+            return res
+        bad = []
+        for line in body:
+            if re.search(r'(->|\.)%s\b' % re.escape(sc['field']), line):
+                stripped = re.sub(r'CALL [^\n]*?uatomic_\w+\(address_of\([^()]*?(->|\.)%s\)' % re.escape(sc['field']), 'CALL uatomic(', line)
+                if re.search(r'(->|\.)%s\b' % re.escape(sc['field']), stripped):
+                    bad.append(line.strip()[:200])
+        res['scan_atomic'] = {'function': sc['function'], 'plain_accesses': bad}
+        if bad:
+            scan_fail = bad
     # 3. property list, filtered
     checks = list(g.get('checks', BASE_CHECKS))
     if g.get('memory_leak'):
@@ -318,6 +344,14 @@ def run_group(repo, unit, g, variant_defs=(), tag=''):
                 res['detail'] = 'built-in check failed inside specification code: %s %s' % (o['id'], o['description'])
                 res['spec_error'] = True
     res['seconds']['total'] = round(time.time() - t_all, 2)
+    if g.get('scan_atomic'):
+        o = {'id': 'scan.%s.counter_only_through_uatomic' % g['scan_atomic']['function'],
+             'description': 'syntactic scan: %s accesses field %s only as the address argument of uatomic_* calls%s' %
+                            (g['scan_atomic']['function'], g['scan_atomic']['field'], (' — plain accesses: ' + ' | '.join(scan_fail)) if scan_fail else ''),
+             'status': 'FAILURE' if scan_fail else 'SUCCESS', 'file': '', 'line': '', 'function': g['scan_atomic']['function'], 'trace': []}
+        res['obligations'].append(o)
+        if scan_fail:
+            res['failed'].append(o)
     if res['canary'] is None:
         res['detail'] = 'no canary obligation in entry'
         return res
